@@ -36,6 +36,20 @@ TEXT = {
  'C17': ('All 16 registries: from_i64/to_i64 are verified against spec functions generated from each macro invocation, enum laws (mutual inverse, injective) are proved, and every name is proved to carry the integer of an independent '
          'oracle (oracle/iana.json) with no other integer registered for the 15 registries transcribed completely; the same tables are re-checked on the compiled crate over ALL i64 by complete Kani harnesses; is_private is verified to be '
          'i < -65536; the three label decoders are verified to classify registered / private-use / unregistered integers and keep text.', '4 C17'),
+ 'C10': ('CoseKey::from_cbor_value is verified against an iff acceptance predicate (map, distinct int-or-text labels, mandatory non-reserved registered-or-text kty, non-empty kid/base IV, '
+         'registered/private/text alg, non-empty array of distinct registered-or-text operations) plus the complete field mapping (each typed field equals the wire value under its label, operations as a set, '
+         'extras unchanged in wire order); the two BTreeSets rest on order laws that are PROVED for Label and RegisteredLabel<T>; CoseKeySet is element-wise through the assumed contract of try_as_array_then_convert.', '4 C10'),
+ 'C15': ('Every narrowing site (the three label decoders, Nonce, key_data_length, Timestamp) is verified to return exactly int_val(i) when it is in range and an error otherwise (OutOfRangeIntegerValue for labels and timestamps); '
+         'widening sites are verified to produce a CBOR integer of the same value; extras are moved untouched (frame clauses of the map decoders). The assumed behaviour of ciborium Integer conversions (A-INTEGER) is itself checked '
+         'over ALL integers of CBOR range [-2^64, 2^64-1] by complete Kani harnesses on the real crate.', '4 C15'),
+ 'C16': ('The verbatim Ord impls of Label, RegisteredLabel<T>, RegisteredLabelWithPrivate<T> are verified to compute a rank/utf8 comparison spec; vstd::laws_cmp::obeys_cmp (reflexive, equal iff ==, antisymmetric, transitive, total) is PROVED for Label and '
+         'RegisteredLabel<T>; the spec order is proved equal to bytewise lexicographic order of the deterministic encodings (lemma over an explicit CBOR head encoder, all lengths), cmp_canonical is verified to be length-first-then-bytewise on the '
+         'encodings ciborium emits (S1); the integer half is re-checked over ALL i64 x i64 on the compiled crate by Kani. RegisteredLabelWithPrivate obeys the laws only on well-formed labels (PrivateUse(i) for unregistered i), which is what decoding and the builders produce.', '4 C16'),
+ 'C18': ('ClaimsSet::from_cbor_value verified against iff acceptance (map, distinct registered/private/text claim keys, text iss/sub/aud, int-in-range-or-float exp/nbf/iat, bstr cti) + complete field mapping; Timestamp, PartyInfo, SuppPubInfo, CoseKdfContext '
+         'against iff + slot mapping (KDF context through the R9 loop rewrite with a verified invariant); all encoders against functional CV specs. Set semantics of BTreeSet<ClaimName> is assumed on well-formed labels (R10 shims).', '4 C18'),
+ 'C19': ('Every builder method (macro-expanded setters via contracts generated from each macro invocation, hand-written ones by inserted contracts) is verified against a whole-struct frame postcondition r.inner() == T { field: value, ..self.inner() }; '
+         'iv/partial_iv clear each other; builder_set_protected! resets original_data; key constructors are verified to produce exactly kty + named parameters; the four reserved-label guards are verified under the documented precondition and '
+         'their necessity copies (precondition removed) must fail at the panic. Sequences of calls: composition of these total per-call contracts (induction on paper).', '4 C19'),
 }
 checks = []
 for p in props:
